@@ -40,6 +40,11 @@ ARGS = {
  "C18_m1": ["C18"], "C18_m2": ["C18"],
  "C19_m1": ["C19"], "C19_m2": ["C05", "--archs", "sse2,avx2", "--ops", "rotate_right_3", "--types", "f32,i32"],
  "C20_m1": ["C20"], "C20_m2": ["C20"],
+ # third round
+ "C05_m4": ["C05", "--archs", "avx,avx2", "--ops", "shuffle_zipstride,shuffle_ziplo,shuffle_mix,shuffle_sel,shuffle_lodup,shuffle_pairswap", "--types", "f64"],
+ "C05_m5": ["C05", "--archs", "sse2,avx2", "--ops", "compress", "--types", "f64,i32"],
+ "C09_m4": ["C09", "--archs", "ssse3,avx2", "--ops", "reduce_add", "--types", "i16,u16"],
+ "C09_m5": ["C09", "--archs", "sse2,avx512f", "--ops", "reduce_min", "--types", "u32,i32,i64"],
 }
 ids = sys.argv[1:] or sorted(d for d in os.listdir(os.path.join(V, "seeded")) if os.path.isdir(os.path.join(V, "seeded", d)))
 for i in ids:
